@@ -11,7 +11,7 @@ use crate::{regsim, tablesim, wiresim};
 use serde::{Deserialize, Serialize};
 
 #[derive(Clone, Debug, Serialize, Deserialize)]
-#[serde(tag = "engine", content = "scenario")]
+#[serde(tag = "scenario_engine", content = "scenario")]
 pub enum Scenario {
     #[serde(rename = "regsim")]
     Reg(RegScenario),
@@ -63,7 +63,13 @@ pub struct Minimised {
     pub accepted: u32,
 }
 
-pub fn minimise(start: &Scenario, v: &Violation, mask: Mask, budget: u32) -> Minimised {
+pub fn minimise(
+    start: &Scenario,
+    v: &Violation,
+    mask: Mask,
+    budget: u32,
+    tick: &mut dyn FnMut(u32),
+) -> Minimised {
     let mut cur = start.clone();
     let mut cur_v = v.clone();
     let mut executions = 0u32;
@@ -74,6 +80,7 @@ pub fn minimise(start: &Scenario, v: &Violation, mask: Mask, budget: u32) -> Min
                 break 'outer;
             }
             executions += 1;
+            tick(executions);
             if let Some(v2) = cand.exec(mask) {
                 if same(&v2, v) {
                     cur = cand;
